@@ -159,6 +159,8 @@ def run(chk):
 
     rule_r02d(chk)
     rule_r02e(chk)
+    from p_c01 import rule_r01g
+    rule_r01g(chk)          # shared with C01: a branch compiled on the other branch's variable types yields infallible-typed calls that fail
 
 
 OP_TYPE_INFO = "<compiler::expression::op::Op as compiler::expression::Expression>::type_info"
